@@ -253,7 +253,8 @@ Qed.
 Lemma penabled_pexp m hi : forall c ch, penabled hi (pexp m c ch) = senabled hi c.
 Proof.
   induction c as [co k|k|l IH|c IH|c IH|thr c IH|id lfs c IH] using lcomp_ind'; intros ch; cbn [pexp penabled senabled]; auto.
-  induction IH as [|x r Hx _ IHr]; cbn [map existsb]; [reflexivity|]. now rewrite Hx, IHr.
+  - induction IH as [|x r Hx _ IHr]; cbn [map existsb]; [reflexivity|]. now rewrite Hx, IHr.
+  - now rewrite IH.
 Qed.
 
 (* ---------- well-formed oracle values ---------- *)
@@ -371,7 +372,7 @@ Proof.
     rewrite (IHr Hc2 n1). reflexivity.
   - cbn [pexp plog swalk wf_lcomp] in *. rewrite penabled_pexp. rewrite (IH ch nn Hc Hch). reflexivity.
   - cbn [pexp plog swalk wf_lcomp] in *. rewrite (IH ch nn Hc Hch). reflexivity.
-  - cbn [pexp plog swalk wf_lcomp] in *. rewrite (IH ch nn Hc Hch). reflexivity.
+  - cbn [pexp plog swalk wf_lcomp] in *. rewrite penabled_pexp. rewrite (IH ch nn Hc Hch). reflexivity.
   - cbn [pexp swalk wf_lcomp] in *. apply andb_true_iff in Hc as [Hl Hc]. apply IH; [exact Hc|].
     cbn [wf_items forallb]. unfold wf_item at 1. cbn [item_fs]. now rewrite Hl.
 Qed.
